@@ -37,7 +37,13 @@ static char const* UN[] = {"floor", "ceil", "trunc", "round", "rint", "lrint", "
     "isnan", "isinf", "isfinite"};
 static char const* BN[] = {"copysign", "fmin", "fmax", "fdim", "fmod", "remainder", "nextafter"};
 
+// NaN results: the payload is never compared; `same_sign` (fabs, abs, copysign) compares the sign bit of a NaN result too
 template <typename T> static bool same(T a, T b) { return (a != a && b != b) || tob(a) == tob(b); }
+template <typename T> static bool same_sign(T a, T b)
+{
+    bits_t<T> const sign = bits_t<T>(1) << (sizeof(T) * 8 - 1);
+    return (a != a && b != b && ((tob(a) ^ tob(b)) & sign) == 0) || tob(a) == tob(b);
+}
 static bool same(long a, long b) { return a == b; }
 static bool same(long long a, long long b) { return a == b; }
 static bool same(bool a, bool b) { return a == b; }
@@ -75,8 +81,8 @@ template <typename T> static void check_unary(bits_t<T> xb)
     if (!same(etl::rint(x), std::rint(x))) report_u<T>(4, xb);
     if (!same(etl::lrint(x), std::lrint(x))) report_u<T>(5, xb);
     if (!same(etl::llrint(x), std::llrint(x))) report_u<T>(6, xb);
-    if (!same(etl::fabs(x), std::fabs(x))) report_u<T>(7, xb);
-    if (!same(etl::abs(x), std::abs(x))) report_u<T>(8, xb);
+    if (!same_sign(etl::fabs(x), std::fabs(x))) report_u<T>(7, xb);
+    if (!same_sign(etl::abs(x), std::abs(x))) report_u<T>(8, xb);
     if (!same(etl::signbit(x), std::signbit(x))) report_u<T>(9, xb);
     if (!same(etl::isnan(x), std::isnan(x))) report_u<T>(10, xb);
     if (!same(etl::isinf(x), std::isinf(x))) report_u<T>(11, xb);
@@ -86,7 +92,7 @@ template <typename T> static void check_unary(bits_t<T> xb)
 template <typename T> static void check_binary(bits_t<T> xb, bits_t<T> yb)
 {
     T x = fromb<T>(xb), y = fromb<T>(yb);
-    if (!same(etl::copysign(x, y), std::copysign(x, y))) report_b<T>(0, xb, yb);
+    if (!same_sign(etl::copysign(x, y), std::copysign(x, y))) report_b<T>(0, xb, yb);
     // C leaves open: the sign of fmin/fmax of two zeros of opposite sign, and signaling NaNs (C17 F.2.1)
     bool const zeros = x == 0 && y == 0 && std::signbit(x) != std::signbit(y);
     bits_t<T> const quiet = bits_t<T>(1) << (sizeof(T) == 4 ? 22 : 51);
